@@ -111,6 +111,40 @@ CLAIMED.update({
             "DESIGN.md §3 C02"),
 })
 
+CLAIMED.update({
+    "C15": ("Round trip Item.from_sml(item.to_sml()) on the real tokenizer/parser: ItemA with symbolic printable characters (quotes, "
+            "brackets, spaces) and one arbitrary character per string, strings inside nested lists, every 1- and 2-byte ItemJ payload; "
+            "termination/rejection: every text of 1..4 (thorough 5) symbols over the SML token alphabet either raises or returns an "
+            "item only if a reference bracket scanner sees the first item closed and only known type names; every proper prefix of "
+            "generated valid SML is rejected.",
+            "Trusted: CrossHair + chx. Numbers/binary/boolean items are checked on boundary representatives only (bounded enumeration): "
+            "decimal/hex text of a symbolic int is concretised by the engine. A path that exceeds the per-path budget is inconclusive, "
+            "never a pass. Outside: texts > 5 symbols, > 1 non-printable character per symbolic string, float text beyond samples.",
+            "DESIGN.md §3 C15"),
+})
+
+CLAIMED.update({
+    "C11": ("One inductive step of the real GemEquipmentHandler from every stable control state x remembered LOCAL/REMOTE x "
+            "communication established or not: operator online/offline/local/remote, host S1F15/S1F17 (all system bytes), the host "
+            "answering the attempt-online probe with S1F2 / something else / nothing, and the enabled flags of the three control-state "
+            "collection events. Next state, OFLACK/ONLACK, remembered sub-state, the S1F4 value of SVID 1002 and exactly the S6F11 CEIDs "
+            "emitted are compared with an E30 table; all 4x2 start-up configurations are checked from __init__. The control space is "
+            "finite and fully explored.",
+            "Trusted: CrossHair + chx, the E30 table in obligations/C11.py; control/communication state constructed directly; inline sender "
+            "thread; scripted probe reply. Outside: link loss in the middle of a control transition.",
+            "DESIGN.md §3 C11"),
+    "C19": ("functions.generate(text) on definitions generated from the documented grammar: 10 trees (items, open arrays, records, named "
+            "and unnamed nested lists up to depth 5), item names rotated through 8 catalogue names, gaps chosen among 10 whitespace/"
+            "comment texts at rotating positions; shape, key order and item classes compared with a reference written from "
+            "docs/firststeps/sfdl.md; history independence (second reading of a flattened text judged on its own); every text of 1..4 "
+            "(thorough 5) symbols over the token alphabet and every proper prefix / unknown-name mutation of the generated "
+            "definitions must be rejected unless a reference tokenizer sees a closed first item with known names.",
+            "Trusted: CrossHair + chx, the reference tokenizer/shape rules in obligations/C19.py. The tokenizer reads through io.StringIO, "
+            "which the engine concretises per character: the solver steers choice indices (bounded exhaustive exploration), characters "
+            "are not symbolic. Open finding: named open list of a single data item (documented S2F23 example) becomes a record.",
+            "DESIGN.md §3 C19"),
+})
+
 NOT_APPLICABLE = {
 }
 
